@@ -286,8 +286,8 @@ func C04(c *core.Ctx) error {
 	c.Ev.Set("corpus_interfaces", len(ifaces))
 	c.Ev.Set("skipped_uncompilable_mocks", core.SortedKeys(skippedAll))
 	c.Ev.Set("exhaustive", done == len(variants))
-	c.Ev.Set("rule", "for every corpus method (focus M, neighbour O in the same interface) and every template-data combination skip-ensure x stub-impl x with-resets, set at root level, at interface level on every interface, and at interface level on every other interface of the file (each mock then driven with its own effective settings): all operation sequences up to the depth over {set MFunc f0/f2/nil, call M with 3 argument tuples incl. zero/nil/empty-variadic, call O, MCalls, ResetMCalls, ResetCalls}, each replayed on a fresh mock through reflection and compared step by step with the list model (exactly-once forwarding, results unchanged, records = arguments in order under exported(parameter name), nil func => panic naming MFunc or stub zero values, resets clear exactly their list, earlier snapshots unchanged); states = distinct (method, model state) pairs reached; plus every schedule (preemption bound 1) of two goroutines with up to two operations each on one mock (C05's explorer): records neither lost, duplicated nor mixed up")
-	c.Ev.Assume("a history ends at the nil-func panic (the statement does not say whether such a call is recorded)")
+	c.Ev.Set("rule", "for every corpus method (focus M, neighbour O in the same interface) and every template-data combination skip-ensure x stub-impl x with-resets, set at root level, at interface level on every interface, and at interface level on every other interface of the file (each mock then driven with its own effective settings): all operation sequences up to the depth over {set MFunc f0/f2/f6 (reads MCalls() and calls M(a1) once more from inside)/nil, call M with 3 argument tuples incl. zero/nil/empty-variadic, call O, MCalls, ResetMCalls, ResetCalls}, each replayed on a fresh mock through reflection and compared step by step with the list model (exactly-once forwarding, results unchanged, records = arguments in order under exported(parameter name), nil func => panic naming MFunc or stub zero values, resets clear exactly their list, earlier snapshots unchanged); states = distinct (method, model state) pairs reached; plus every schedule (preemption bound 1) of two goroutines with up to two operations each on one mock (C05's explorer): records neither lost, duplicated nor mixed up")
+	c.Ev.Assume("a history ends at the nil-func panic, after an epilogue on the same mock: the records can be read (with or without a record of the panicking call: the statement does not say), the function set, the call made and recorded, the resets return")
 	c.Ev.Assume("mocks that do not compile are C01's subject and are skipped here (listed in skipped_uncompilable_mocks)")
 	return nil
 }
